@@ -14,11 +14,11 @@ VARIABLE i
 TValueBound == 4          \* |entry| of every input array (Pythagorean columns go up to 4)
 
 CfgFields == {"op", "kind", "shape", "rank", "family", "how", "mode", "operand", "odim", "keep", "copy", "npad", "padb",
-              "lens", "maxrank", "thr", "listin", "fshapes", "coreshape", "pshapes", "rshapes", "mag", "omix", "steps", "grade", "negmode", "cmix", "cdtypes", "callform", "alias", "vals"}
+              "lens", "maxrank", "thr", "listin", "fshapes", "coreshape", "pshapes", "rshapes", "mag", "omix", "steps", "grade", "negmode", "cmix", "cdtypes", "callform", "alias", "vals", "copyopt"}
 OutFields == {"raised", "malformed", "exact", "dense", "cn", "cnfin", "wmin", "summ", "sfin", "parts", "perm",
-              "orth", "orthfin", "nproj", "recon", "slices", "dense_im", "dtype", "steps", "recon_hi", "slices_lo", "pdtypes"}
+              "orth", "orthfin", "nproj", "recon", "slices", "dense_im", "dtype", "steps", "recon_hi", "slices_lo", "pdtypes", "accepted", "nfac", "objshape"}
 Ops == {"normalize", "cp_flip_sign", "cp_permute_factors", "pad_tt_rank", "cp_mode_dot", "tucker_mode_dot",
-        "cp_to_parafac2", "svd_roundtrip", "svd_compress", "sequence"}
+        "cp_to_parafac2", "svd_roundtrip", "svd_compress", "sequence", "refused"}
 
 IsLogT(T)  == {"shape", "data"} \subseteq DOMAIN T /\ IsTAny(T)
 IsLogQ(T)  == {"shape", "q", "fin"} \subseteq DOMAIN T /\ T.fin \in BOOLEAN
@@ -55,6 +55,7 @@ WellFormed(e) ==
                                                                        /\ \A k \in 1..Len(e.in.vim) : e.in.vim[k] \in (-TValueBound)..TValueBound))
     /\ (e.cfg.op = "cp_permute_factors" => "ref" \in DOMAIN e.in /\ "fs" \in DOMAIN e.in.ref /\ TensAll(e.in.ref.fs) /\ WOK(e.in.ref))
     /\ OutFields \subseteq DOMAIN e.out
+    /\ e.out.accepted \in BOOLEAN /\ e.out.nfac \in Nat
     /\ e.out.raised \in BOOLEAN /\ e.out.malformed \in BOOLEAN /\ e.out.exact \in BOOLEAN
     /\ e.out.cnfin \in BOOLEAN /\ e.out.sfin \in BOOLEAN /\ e.out.orthfin \in BOOLEAN
     /\ IsLogQ(e.out.dense)
@@ -106,6 +107,15 @@ Verdict(e) ==
     LET c == e.cfg  in == e.in  out == e.out  kd == e.cfg.kind
         X == Expected(c, in) IN
     IF ~InBound(X) THEN "InDomain"
+    ELSE IF c.op = "refused" THEN
+        \* the misfit operand must be refused, and the caller's tuple / object must be unchanged: the tensor it represents,
+        \* the number of factors, and (wrapper objects) the .shape attribute
+        IF out.accepted THEN "BadCallAccepted"
+        ELSE IF out.raised \/ out.malformed THEN "RefusedChanged"              \* the object can no longer be read
+        ELSE IF out.nfac # Len(in.fs) THEN "RefusedChanged"
+        ELSE IF ~CloseQ(out.dense, X) THEN "RefusedChanged"
+        ELSE IF c.how # "tuple" /\ out.objshape # c.shape THEN "RefusedChanged"
+        ELSE "ok"
     ELSE IF c.op = "sequence" THEN
         \* every step of the sequence is judged on its own: the object represents the expected tensor after it, and
         \* after every normalize() its non-zero columns have unit norm (zero-ness from the state BEFORE that step)
